@@ -290,10 +290,11 @@ def serializeGeneral (P : Prims) (E : Env) (K : KeyEnv) (reg : JwsRegistry) (ms 
   let sigs ← ms.mapM fun m => signMember P E K reg pseg m key
   pure { payload := asciiStr pseg, signatures := sigs }
 
-/-- `detach_compact_content` on the token octets. -/
-def detachCompact (tok : Bytes) : Bytes :=
+/-- `detach_compact_content` on the token octets: `parts = value.split("."); parts[1] = ""; ".".join(parts)`
+(an `IndexError` when there is no second segment). -/
+def detachCompact (tok : Bytes) : Except Err Bytes :=
   match splitOn 46 tok with
-  | h :: _ :: rest => joinWith 46 (h :: [] :: rest)
-  | l => joinWith 46 l
+  | h :: _ :: rest => pure (joinWith 46 (h :: [] :: rest))
+  | _ => throw .indexError
 
 end Jose
